@@ -65,7 +65,7 @@ def run_audit_shard():
 
 
 def min_required(tier):
-    return {"faults_fired": 1500, "cases": len(F.CASES), "persistent_faults_fired": 500}
+    return {"faults_fired": 600, "cases": len(F.CASES), "persistent_faults_fired": 250}
 
 
 def site_class(case, op):
